@@ -6,6 +6,8 @@
      post.missed  on_missing_data calls of the step                emitted during the step
      post.state   public state                       post.timer   ticks until public next_sync_timing
      post.seq     public self_seq
+     post.ret     values returned by new_data() during the step (Svs!PublishedSeqs)
+     post.cbsaw   local_sv as seen inside on_missing_data (Svs!CallbackSaw)
    The choices C18 leaves open (when suppression is entered, timer lengths, steady emission) are
    existentially quantified in Svs and pinned here by post.state / post.timer / post.out.
 
@@ -44,6 +46,8 @@ PostOk == LET p == Tr[l].post IN
             /\ Same("state", state', p.state)
             /\ Same("timer", timer', p.timer)
             /\ Same("seq", selfSeq', p.seq)
+            /\ Same("ret", PublishedSeqs, p.ret)
+            /\ Same("cbsaw", CallbackSaw, p.cbsaw)
 \* name the observed open choices before Svs enumerates them
 Hint == hint' = [t |-> (IF Relax = "timer" THEN -1 ELSE Tr[l].post.timer),
                  s |-> (IF Relax = "state" THEN "any" ELSE Tr[l].post.state)]
